@@ -36,6 +36,22 @@ def tcp_conn(idx, payload_segs, port=80, resp=None, syn_opts=False, cip=None, si
     return {"ip": ep(cip, cp) + ">" + ep(sip, port), "eps": (ep(cip, cp), ep(sip, port)), "frames": fr}
 
 
+def tcp_conn6(idx, payload_segs, cip, sip, cp, port=80, resp=None, syn_opts=False):
+    """tcp_conn over IPv6 (16-byte addresses)"""
+    from props import traffic
+    ic, is_ = 1000 * (idx + 1), 7000 * (idx + 1)
+    opts = (b"\x02\x04\x05\xa0\x04\x02\x08\x0a" + (5000 + idx).to_bytes(4, "big") + b"\x00\x00\x00\x00\x01\x03\x03\x07") if syn_opts else b""
+    fr = [c10.frame6(cip, sip, cp, port, ic, 0, 0x02, opts=opts), c10.frame6(sip, cip, port, cp, is_, ic + 1, 0x12, opts=opts, hlim=128)]
+    off = 0
+    for seg in payload_segs:
+        fr.append(c10.frame6(cip, sip, cp, port, ic + 1 + off, is_ + 1, 0x18, seg))
+        off += len(seg)
+    if resp:
+        fr.append(c10.frame6(sip, cip, port, cp, is_ + 1, ic + 1 + off, 0x18, resp))
+    eps = (traffic.ep(cip, cp), traffic.ep(sip, port))
+    return {"ip": eps[0] + ">" + eps[1], "eps": eps, "frames": fr}
+
+
 def attribute(crate, results, conns):
     """per connection (by its directed endpoint pair: client -> server, either direction of travel): digests of the non-empty
     results attributed to it, in order"""
@@ -114,6 +130,13 @@ def run(tier, v):
         lib["nc_tls" + suffix] = tcp_conn(20 + k, two(Hn, 35 + k), port=8443 if alt else 443, **kw)
         lib["nc_h1" + suffix] = tcp_conn(30 + k, two(Rn, 20 + k), port=8080 if alt else 80, resp=Sn, **kw)
         lib["nc_tcp" + suffix] = tcp_conn(40 + k, [b""], port=8080 if alt else 80, syn_opts=True, **kw)
+    # the same two hosts and ports over IPv6 with IPv4-mapped addresses (::ffff:a.b.c.d): another connection, another address family
+    m6 = lambda a: bytes([0] * 10 + [0xff, 0xff]) + bytes(a)
+    Hm = c10.hello("nc_mapped.example")
+    Rm = b"GET /nc_mapped HTTP/1.1\r\nHost: nc-mapped.example\r\nUser-Agent: ua-nc-mapped\r\n\r\n"
+    lib["nc_tls_mapped"] = tcp_conn6(60, two(Hm, 41), m6(base["cip"]), m6(base["sip"]), base["cp"], port=443)
+    lib["nc_h1_mapped"] = tcp_conn6(61, two(Rm, 27), m6(base["cip"]), m6(base["sip"]), base["cp"], port=80, resp=b"HTTP/1.1 200 OK\r\nServer: srv-nc-mapped\r\n\r\nok")
+    lib["nc_tcp_mapped"] = tcp_conn6(62, [b""], m6(base["cip"]), m6(base["sip"]), base["cp"], port=80, syn_opts=True)
     # sequels: a connection that has run its course, followed by a NEW connection on the same 4-tuple (port reuse) -- "no connection can
     # disable analysis of the connections that follow it".  The predecessor of the TLS pair is a TLS 1.2 handshake whose second client
     # flight carries three records in one segment; the HTTP predecessor is a complete exchange.
@@ -149,14 +172,14 @@ def run(tier, v):
     sets = {
         "http": [("h2_ins_ref", "h2_bare_ref"), ("h2_zero", "h2_legit"), ("h2_ins_ref", "h2_legit"), ("h1", "h2_bare_ref"), ("h2_bare_ref", "h2_ins_ref", "h2_zero"), ("h1", "h2_zero", "h2_legit"),
                  ("h2_zero_fail", "h2_legit"), ("h2_ins_fail", "h2_bare_ref"), ("h2_zero_fail", "h2_ins_ref", "h2_ins_fail")]
-                + [("nc_h1", "nc_h1" + x) for x in ("_dport", "_cport", "_sip", "_cip", "_mirror", "_swaphosts")]
+                + [("nc_h1", "nc_h1" + x) for x in ("_dport", "_cport", "_sip", "_cip", "_mirror", "_swaphosts", "_mapped")]
                 + [("rx_h1_0", "rx_h1_1"), ("rx_h1_1", "rx_h1_2"), ("rx_h1_2", "h2_legit")],
-        "tls": [("tls_a", "tls_b"), ("tls_a", "h1"), ("tls_a", "tls_b", "h2_legit")] + [("nc_tls", "nc_tls" + x) for x in ("_dport", "_cport", "_sip", "_cip", "_mirror", "_swaphosts")]
+        "tls": [("tls_a", "tls_b"), ("tls_a", "h1"), ("tls_a", "tls_b", "h2_legit")] + [("nc_tls", "nc_tls" + x) for x in ("_dport", "_cport", "_sip", "_cip", "_mirror", "_swaphosts", "_mapped")]
                + [("rx_tls_0", "rx_tls_1"), ("rx_tls_1", "rx_tls_2")],
-        "tcp": [("tcp_a", "tcp_b"), ("tcp_a", "h1"), ("tcp_a", "tls_a", "tcp_b")] + [("nc_tcp", "nc_tcp" + x) for x in ("_dport", "_cport", "_sip", "_cip", "_mirror", "_swaphosts")]
+        "tcp": [("tcp_a", "tcp_b"), ("tcp_a", "h1"), ("tcp_a", "tls_a", "tcp_b")] + [("nc_tcp", "nc_tcp" + x) for x in ("_dport", "_cport", "_sip", "_cip", "_mirror", "_swaphosts", "_mapped")]
                + [("rx_tcp_0", "rx_tcp_1"), ("rx_tcp_1", "rx_tcp_2"), ("rx_tcp_0", "rx_h1_0")],
         "uni": [("tcp_a", "tls_a", "h2_ins_ref"), ("h2_ins_ref", "h2_bare_ref"), ("h1", "tls_b", "h2_zero"), ("h2_zero", "h2_legit"), ("h2_zero_fail", "h2_legit"), ("h2_ins_fail", "h2_bare_ref"), ("nc_tls", "nc_tls_dport"), ("nc_h1", "nc_h1_cport"), ("nc_tls", "nc_h1_sip"),
-                ("rx_tcp_0", "rx_tls_0"), ("rx_h1_0", "rx_tls_1"), ("rx_h1_1", "rx_tcp_2")],
+                ("rx_tcp_0", "rx_tls_0"), ("rx_h1_0", "rx_tls_1"), ("rx_h1_1", "rx_tcp_2"), ("nc_tls", "nc_tls_mapped"), ("nc_h1", "nc_h1_mapped")],
     }
     cap = 4000 if tier == "thorough" else 150
     lines, meta = [], {}
